@@ -354,6 +354,10 @@ def run_check(prop, tier, fn):
     except subprocess.TimeoutExpired as e:
         print("BROKEN property=%s: timeout: %s" % (prop, e), file=sys.stderr)
         rc = 2
+    except Exception:       # a failure of the machinery is never a verdict
+        import traceback
+        print("BROKEN property=%s: internal error:\n%s" % (prop, traceback.format_exc()), file=sys.stderr)
+        rc = 2
     finally:
         if os.environ.get("VERIF_KEEP") != "1":
             w.cleanup()
